@@ -98,6 +98,8 @@ def kdf(cfg):
         return derive
     if name == 'blake2b':
         def derive(material, params, context=b''):
+            if len(material) > 64:
+                raise FormatError('BLAKE2b key material longer than 64 bytes cannot be used under the documented scheme')
             return hashlib.blake2b(context, salt=params, digest_size=cfg.get('length', 64), key=material).digest()
         return derive
     raise FormatError(f'unknown kdf {name}')
